@@ -32,6 +32,8 @@
 #include <unordered_set>
 #include <vector>
 
+extern "C" int __llvm_profile_write_file(void) __attribute__((weak));  // present in bin/coverage builds only
+
 namespace {
 
 // ------------------------------------------------------------ tiny JSON
@@ -510,6 +512,7 @@ int main(int argc, char** argv)
                     if (write(pfd[1], nm, sizeof nm) != (ssize_t)sizeof nm) _exit(2);
                     if (write(pfd[1], &v, sizeof v) != (ssize_t)sizeof v) _exit(2);
                 }
+                if (__llvm_profile_write_file) __llvm_profile_write_file();
                 _exit(0);
             }
             close(pfd[1]);
